@@ -23,7 +23,20 @@ PROFILE = P.profile(gens=[1, 2, 2, 3, 4], p_cutoff=0.3, entry_w={"tree": 9, "hms
 
 
 def gen(seed, tier):
-    return P.gen_plan(seed, PROFILE, PROP)
+    pl = P.gen_plan(seed, PROFILE, PROP)
+    crossover_only(pl, seed)
+    return pl
+
+
+def crossover_only(pl, seed):
+    """A crossover-only GA is legal: p_mutation = 0 for the variants that recombine (the mutation operator is then
+    the stage that evaluates the recombined children)."""
+    if seed % 6 != 0:
+        return
+    for l in pl.get("levels", []):
+        if l["engine"] == "ea" and l.get("ea") in ("SEAWithCrossover", "GAStyleSEA"):
+            l["p_mutation"] = 0.0
+            l["p_crossover"] = max(0.7, l.get("p_crossover") or 0.7)
 
 
 class C12Monitor(Monitor):
